@@ -1565,12 +1565,17 @@ fn interpolate_string(
         let ast =
             match parser.parse(&mut lexer) {
                 Ok(v) => v,
-                Err(e) => return new_loc_err(
-                    Error::InterpolateStringParseFailed{
-                        source_str: format!("{e:?}"),
-                    },
-                    slot_col,
-                ),
+                Err(e) => {
+                    // We render the parse error in the same way as parse
+                    // errors for scripts, instead of showing its internal
+                    // structure.
+                    let (_, msg) = crate::render_parse_error(e);
+
+                    return new_loc_err(
+                        Error::InterpolateStringParseFailed{source_str: msg},
+                        slot_col,
+                    );
+                },
             };
 
         // We catch the evaluation error manually so that we can modify the
